@@ -763,8 +763,13 @@ func (x *Exec) run() {
 		v := x.freshValue(st, "in."+p.Name(), p.Type())
 		st.regs[p] = v
 		if ptr, ok := v.(*Ptr); ok && ptr.Ref != nil {
-			// receivers and pointer parameters are assumed non-nil (A-nonnil) and allocated
-			st.assume(And(Gt(ptr.Ref, IntLit(0)), Select(st.alloc, ptr.Ref)), "pointer parameter non-nil")
+			if comparedToNil(fn, p) {
+				// the function itself tests this parameter against nil: it may be nil
+				st.assume(Or(Eq(ptr.Ref, IntLit(0)), And(Gt(ptr.Ref, IntLit(0)), Select(st.alloc, ptr.Ref))), "nullable pointer parameter")
+			} else {
+				// receivers and pointer parameters are assumed non-nil (A-nonnil) and allocated
+				st.assume(And(Gt(ptr.Ref, IntLit(0)), Select(st.alloc, ptr.Ref)), "pointer parameter non-nil")
+			}
 		}
 		tv := TV{V: v, T: p.Type(), S: x.prog.sortOf(p.Type())}
 		x.params[p.Name()] = tv
@@ -808,6 +813,47 @@ func (x *Exec) run() {
 		x.unsupported("function has no body")
 	}
 	x.runBlock(st, fn.Blocks[0])
+}
+
+// comparedToNil: does fn compare parameter p (or a copy of it held in a local variable) with nil?
+func comparedToNil(fn *ssa.Function, p *ssa.Parameter) bool {
+	// values that are (copies of) the parameter: the parameter itself, loads of cells it was stored into
+	cells := map[ssa.Value]bool{}
+	for changed := true; changed; {
+		changed = false
+		for _, b := range fn.Blocks {
+			for _, in := range b.Instrs {
+				if st, ok := in.(*ssa.Store); ok {
+					if isCopyOf(st.Val, p, cells) && !cells[st.Addr] {
+						if _, isAlloc := st.Addr.(*ssa.Alloc); isAlloc {
+							cells[st.Addr] = true
+							changed = true
+						}
+					}
+				}
+			}
+		}
+	}
+	for _, b := range fn.Blocks {
+		for _, in := range b.Instrs {
+			if bo, ok := in.(*ssa.BinOp); ok && (bo.Op == token.EQL || bo.Op == token.NEQ) {
+				if isNilConst(bo.Y) && isCopyOf(bo.X, p, cells) || isNilConst(bo.X) && isCopyOf(bo.Y, p, cells) {
+					return true
+				}
+			}
+		}
+	}
+	return false
+}
+
+func isCopyOf(v ssa.Value, p *ssa.Parameter, cells map[ssa.Value]bool) bool {
+	if v == ssa.Value(p) {
+		return true
+	}
+	if u, ok := v.(*ssa.UnOp); ok && u.Op == token.MUL && cells[u.X] {
+		return true
+	}
+	return false
 }
 
 type pathEnd struct{}
